@@ -34,6 +34,8 @@ def _props_of(r):
         return {"C05"}
     if c in ("lost_injection", "bug_log"):
         return set() if r.get("overlap") else {"C22"}
+    if c == "code_of_removed_region_left":
+        return {MODE_PROP.get(r.get("mode"), "C21")}
     if c == "probe_mismatch":
         out.add(MODE_PROP.get(r.get("mode"), "C16"))
         if r.get("mode") in ("before", "after"):
